@@ -135,7 +135,7 @@ int main(int argc, char **argv)
         g_cur_seed = p.seed;
         printf("S 0 %llu\n", (unsigned long long)p.seed);
         fflush(stdout);
-        exec::RunResult r = exec::run_plan(p);
+        exec::RunResult r = exec::run_plan_checked(p);
         js::Value out = exec::result_json(r, true);
         if (exec::g_record)
         {
@@ -177,7 +177,7 @@ int main(int argc, char **argv)
             printf("S %llu %llu\n", (unsigned long long)i, (unsigned long long)seed);
             fflush(stdout);
             plan::Plan p = plan::generate(profile, seed, lim);
-            exec::RunResult r = exec::run_plan(p);
+            exec::RunResult r = exec::run_plan_checked(p);
             js::Value out = exec::result_json(r, true);
             out.set("seed", js::Value::U(seed));
             if (!r.violations.empty() || (samples && i < start + 3 * stride))
